@@ -110,6 +110,22 @@ impl From<SockAddr> for SockAddrCAN {
 
 pub struct CANSocket(AsyncFd<socket2::Socket>);
 
+#[cfg(feature = "verif")]
+impl CANSocket {
+    /// Verification seam: bind to the emulated bus (see `can_verif`), if it is switched on.
+    pub(crate) fn bind_verif(interface: &str) -> Option<io::Result<Self>> {
+        crate::can_verif::bind(interface)
+            .map(|socket| socket.and_then(|socket| Ok(Self(AsyncFd::new(socket)?))))
+    }
+}
+
+#[cfg(feature = "verif")]
+impl Drop for CANSocket {
+    fn drop(&mut self) {
+        crate::can_verif::unbind(self.0.as_raw_fd());
+    }
+}
+
 impl CANSocket {
     /// Bind to a CAN bus network interface.
     pub fn bind(address: impl Into<SockAddr>) -> io::Result<Self> {
@@ -173,6 +189,11 @@ impl CANSocket {
                     std::mem::size_of::<libc::can_frame>(),
                 )
             };
+
+            #[cfg(feature = "verif")]
+            if let Some(result) = crate::can_verif::send(self.0.as_raw_fd(), self.0.get_ref(), buf2) {
+                return result;
+            }
 
             match guard.try_io(|inner| inner.get_ref().send(buf2)) {
                 Ok(result) => return result,
